@@ -544,7 +544,17 @@ func (h *handler1) handleConnect(ctx context.Context, snConnect *snPkts1.Connect
 	// See doc/specification-interpretation.md.
 	if state := h.state.Get(); state == util.StateAwake || state == util.StateAsleep {
 		h.setState(util.StateActive)
-		return h.snSend(snPkts1.NewConnack(snPkts1.RC_ACCEPTED))
+		if err := h.snSend(snPkts1.NewConnack(snPkts1.RC_ACCEPTED)); err != nil {
+			return err
+		}
+		// Deliver the packets queued while the client was asleep.
+		for _, pkt := range h.pktBuffer {
+			if err := h.snSend(pkt); err != nil {
+				return err
+			}
+		}
+		h.pktBuffer = nil
+		return nil
 	}
 
 	// Cancel previous transaction, if any.
